@@ -97,6 +97,17 @@ pub struct RelationSet {
     pub n_cycles: [usize; 8],
 }
 
+/// One pending call of the depth-first walk `RelationSet::walk_doubles`.
+struct WalkFrame {
+    root: u32,
+    // Keys (root, q) of pp-relations, collected when the frame was created.
+    pqs: Vec<(u32, u32)>,
+    // Reverse keys (root, p) for pp-relations (p, root).
+    qps: Vec<(u32, u32)>,
+    // Position in the sequence: combine pqs, combine qps, walk pqs, walk qps.
+    pos: usize,
+}
+
 impl RelationSet {
     pub fn new(n: Uint, fbsize: usize, maxlarge: u64) -> Self {
         #[cfg(yamaquasi_verif)]
@@ -313,7 +324,64 @@ impl RelationSet {
         self.cycles.push(r);
     }
 
+    /// Depth-first walk over the pp-relations reachable from `root`
+    /// (which has just become available as a p-relation).
+    ///
+    /// The walk used to be a mutual recursion with `combine_double` whose depth
+    /// is only bounded by the number of stored pp-relations: a chain of a few
+    /// thousand pp-relations overflowed the stack. It now keeps its own stack:
+    /// each `WalkFrame` is one call of the former recursive function (the keys
+    /// collected on entry and the position in its four loops), so relations are
+    /// combined in exactly the same order as before.
     fn walk_doubles(&mut self, root: u32) {
+        let mut stack: Vec<WalkFrame> = vec![self.walk_frame(root)];
+        while let Some(top) = stack.last_mut() {
+            let (npq, nqp) = (top.pqs.len(), top.qps.len());
+            let pos = top.pos;
+            top.pos += 1;
+            // Next root to walk from, if this step requests it.
+            let next: Option<u32> = if pos < npq {
+                let (p, q) = top.pqs[pos];
+                match self.doubles.remove(&(p, q)) {
+                    None => None,
+                    Some(r) => {
+                        self.doubles_rev.remove(&(q, p));
+                        let (ok, next) = self.combine_double_step(&r.unpack(), p as u64, q as u64);
+                        assert!(ok);
+                        next
+                    }
+                }
+            } else if pos < npq + nqp {
+                let (q, p) = top.qps[pos - npq];
+                match self.doubles.remove(&(p, q)) {
+                    None => None,
+                    Some(r) => {
+                        self.doubles_rev.remove(&(q, p));
+                        let (ok, next) = self.combine_double_step(&r.unpack(), p as u64, q as u64);
+                        assert!(ok);
+                        next
+                    }
+                }
+            } else if pos < 2 * npq + nqp {
+                let (p, q) = top.pqs[pos - npq - nqp];
+                assert_eq!(p, top.root);
+                Some(q)
+            } else if pos < 2 * npq + 2 * nqp {
+                let (q, p) = top.qps[pos - 2 * npq - nqp];
+                assert_eq!(q, top.root);
+                Some(p)
+            } else {
+                stack.pop();
+                None
+            };
+            if let Some(next) = next {
+                stack.push(self.walk_frame(next));
+            }
+        }
+    }
+
+    /// Collects the pp-relations having `root` as one of their primes.
+    fn walk_frame(&self, root: u32) -> WalkFrame {
         let pqs: Vec<(u32, u32)> = self
             .doubles
             .range((root, 0)..(root + 1, 0))
@@ -324,29 +392,11 @@ impl RelationSet {
             .range((root, 0)..(root + 1, 0))
             .map(|&k| k)
             .collect();
-        for key @ &(p, q) in &pqs {
-            let Some(r) = self.doubles.remove(key) else {
-                continue;
-            };
-            self.doubles_rev.remove(&(q, p));
-            let ok = self.combine_double(&r.unpack(), p as u64, q as u64);
-            assert!(ok);
-        }
-        for key @ &(q, p) in &qps {
-            let Some(r) = self.doubles.remove(&(p, q)) else {
-                continue;
-            };
-            self.doubles_rev.remove(key);
-            let ok = self.combine_double(&r.unpack(), p as u64, q as u64);
-            assert!(ok);
-        }
-        for (p, q) in pqs {
-            assert_eq!(p, root);
-            self.walk_doubles(q);
-        }
-        for (q, p) in qps {
-            assert_eq!(q, root);
-            self.walk_doubles(p);
+        WalkFrame {
+            root,
+            pqs,
+            qps,
+            pos: 0,
         }
     }
 
@@ -470,6 +520,16 @@ impl RelationSet {
     }
 
     fn combine_double(&mut self, r: &Relation, p: u64, q: u64) -> bool {
+        let (ok, next) = self.combine_double_step(r, p, q);
+        if let Some(root) = next {
+            self.walk_doubles(root);
+        }
+        ok
+    }
+
+    /// Same as `combine_double` except that the walk from a newly available
+    /// large prime is returned as a request instead of being performed.
+    fn combine_double_step(&mut self, r: &Relation, p: u64, q: u64) -> (bool, Option<u32>) {
         if p == q {
             // Very unlikely: a perfect square
             let mut f = r.factors.clone();
@@ -480,7 +540,7 @@ impl RelationSet {
                 ..r.clone()
             };
             self.add_cycle(rr);
-            true
+            (true, None)
         } else if self.partial.contains_key(&p) && self.partial.contains_key(&q) {
             // Ideal case, both primes already available.
             //   1    3 relations are involved.
@@ -500,25 +560,23 @@ impl RelationSet {
                 assert_eq!(rqp.cofactor, p);
                 self.partial.insert(p, rqp.pack());
             }
-            true
+            (true, None)
         } else if self.partial.contains_key(&p) {
             let rp = self.partial.get(&p).unwrap();
             let rq = self.combine(r, &rp.unpack());
             assert_eq!(rq.cofactor, q);
             self.n_combined12 += 1;
             self.partial.insert(q, rq.pack());
-            self.walk_doubles(q as u32);
-            true
+            (true, Some(q as u32))
         } else if self.partial.contains_key(&q) {
             let rq = self.partial.get(&q).unwrap();
             let rp = self.combine(r, &rq.unpack());
             assert_eq!(rp.cofactor, p);
             self.n_combined12 += 1;
             self.partial.insert(p, rp.pack());
-            self.walk_doubles(p as u32);
-            true
+            (true, Some(p as u32))
         } else {
-            false
+            (false, None)
         }
     }
 }
